@@ -159,7 +159,7 @@ type c06Chain struct {
 	users      []c06User   // the credential store (etcd) right now
 	epochs     []c06Epoch  // history of the credential store
 	syncers    []*c06Syncer
-	pending    *c06Epoch    // a push that has begun and not settled yet
+	pending    []*c06Epoch  // pushes that have begun and not settled yet
 	building   int          // generation being created right now (its Validator reads the store)
 	initFailed map[int]bool // generations whose initial read of the store was made to fail
 	jcfg       *c06Cfg      // configuration the request under evaluation is judged by
@@ -297,36 +297,55 @@ func (c *c06Chain) kvs() map[string]string {
 
 // push changes the credential store and lets every live syncer deliver the new
 // snapshot; it returns once the system has been quiescent afterwards.
-func (c *c06Chain) push(users []c06User) {
-	c.users = users
-	ep := c06Epoch{start: time.Now(), users: users, afterGen: c.gen}
-	c.pending = &ep
-	snap := c.kvs()
+func (c *c06Chain) push(users []c06User) { c.pushAll([][]c06User{users}) }
+
+// pushAll makes the given changes of the credential store one directly after
+// the other (each is a full snapshot of the prefix, delivered to every live
+// watcher in order, as the cluster syncer does) and returns once the system
+// has been quiescent afterwards: from then on only the LAST snapshot is a
+// valid reference.
+func (c *c06Chain) pushAll(states [][]c06User) {
+	var eps []*c06Epoch
 	delivered := 0
-	for _, sy := range c.syncers {
-		if sy.closed {
-			continue
-		}
-		m := map[string]string{}
-		for k, v := range snap {
-			if strings.HasPrefix(k, sy.prefix) {
-				m[k] = v
+	for _, users := range states {
+		c.users = users
+		ep := &c06Epoch{start: time.Now(), users: users, afterGen: c.gen}
+		eps = append(eps, ep)
+		c.pending = append(c.pending, ep)
+		snap := c.kvs()
+		for _, sy := range c.syncers {
+			if sy.closed {
+				continue
+			}
+			m := map[string]string{}
+			for k, v := range snap {
+				if strings.HasPrefix(k, sy.prefix) {
+					m[k] = v
+				}
+			}
+			select {
+			case sy.ch <- m:
+				delivered++
+			case <-sy.done:
 			}
 		}
-		select {
-		case sy.ch <- m:
-			delivered++
-		case <-sy.done:
-		}
 	}
-	// virtual time only passes when every goroutine is durably blocked: the
-	// receivers have finished reloading by then
+	// Quiescence without wall-clock time: virtual time only passes when every
+	// goroutine is durably blocked, i.e. the receivers have gone back to waiting
+	// for the next snapshot; goroutines parked at a scheduler gate are given
+	// several scheduling rounds (each round = virtual sleep, then a gate).
 	time.Sleep(time.Millisecond)
+	for i := 0; i < 4; i++ {
+		c.r.Sleep(time.Microsecond)
+	}
 	c.r.Yield("c06.push.settled")
-	ep.settled = time.Now()
+	now := time.Now()
+	for _, ep := range eps {
+		ep.settled = now
+		c.epochs = append(c.epochs, *ep)
+	}
 	c.pending = nil
-	c.epochs = append(c.epochs, ep)
-	c.r.Eventf("credential store push #%d: %d users, delivered to %d live syncers, settled at %v", len(c.epochs)-1, len(users), delivered, c.r.Now())
+	c.r.Eventf("credential store: %d snapshot(s) pushed back to back, last has %d users, %d deliveries, settled at %v (epoch #%d)", len(states), len(c.users), delivered, c.r.Now(), len(c.epochs)-1)
 }
 
 // newGeneration builds the next pipeline generation exactly as an update of
